@@ -38,7 +38,7 @@ def trip(result):
         if ii != i or jj != j:
             raise Violation("triplet-type", f"non-integer position in {t!r}")
         dd = float(d)
-        if dd == int(dd):
+        if math.isfinite(dd) and dd == int(dd):
             dd = int(dd)
         out.append((ii, jj, dd))
     return out
